@@ -50,6 +50,10 @@ def gen(rng, tier):
         cmds += ["confdirs " + ",".join(enc(x) for x in cd), "readdirs 0 " + args, "dump 0", "history " + args,
                  "newopts 1 " + enc(b"PARSING_DIRS=/usr/etc:/etc;CONFIG_DIRS=" + b":".join(cd)), "readconfig 1 - - %s %s x3d x23" % (enc(name), enc(sfx)), "dump 1"]
         out.append(Scenario(cmds, [False] * (k + 1) + [True, True, True, False, True, True], tags=("nested-format-below-a-file",)))
+    # a NULL / empty layer directory stands for "/": its main file AND its drop-in directories are absolute names (never
+    # relative to the working directory); family shared with C12
+    import C12
+    out += C12.gen_emptydir(rng, 60 if tier == "quick" else 2000)
     # both names NULL must be refused, not crash
     out.append(Scenario(["newopts 0 " + enc(b"ROOT_PREFIX=/r"), "readconfig 0 - - - x636f6e66 x3d x23", "dump 0"], tags=("nullnames",)))
     out.append(Scenario(["readdirs 0 x2f75 x2f65 - x636f6e66 x3d x23", "dump 0"], tags=("nullnames",)))
